@@ -58,6 +58,15 @@ def discover(j):
         for v in a['variants']:
             if any(f['ty'].startswith('std::str::CharIndices<') for f in v['fields']):
                 tok = a['name']
+    if tok and not any(b['arg_count'] == 1 and b['locals'][1]['ty'].startswith('&mut ' + tok) and _result_parts(b['locals'][0]['ty'])[0] in adts
+                       for b in j['bodies']):
+        # the scanning state (input + char iterator) is a private struct nested in the tokenizer proper: the tokenizer is
+        # the one struct that owns it and produces tokens
+        owners = [a['name'] for a in adts.values() if a['name'] != tok and len(a['variants']) == 1
+                  and any(_path(f['ty']) == tok for f in a['variants'][0]['fields'])]
+        owners = [o for o in owners if any(b['arg_count'] == 1 and b['locals'][1]['ty'].startswith('&mut ' + o) and _result_parts(b['locals'][0]['ty'])[0] in adts for b in j['bodies'])]
+        if len(owners) == 1:
+            tok = owners[0]
     want(tok, 'tokenizer::Tokenizer')
     token = None
     if tok:
